@@ -87,10 +87,11 @@ PROPS = {
     'C15': dict(level='other', groups=['pkgtype'], kani=['package_type_names'], bounded=['names'],
         explanation='Complete on finite domains: the 7-variant name table (Kani + Verus: name() == type_name), all 192 case variants (enumerated). The converse over all strings rests on phf / UniCase '
                     '(dependency); BOUNDED: strings <= 4 / 5 over the names\' letters plus look-alikes, one-edit neighbours, the spec\'s other type names.'),
-    'C16': dict(level='other', groups=['serde', 'fmt', 'parse'], kani=[], bounded=['serde'],
+    'C16': dict(level='proof', groups=['serde', 'fmt', 'parse', 'c01'], kani=[], bounded=['serde'],
         trusted=['serde trait contracts (stubs in contracts/theory/serde.rs): collect_str hands over exactly the Display text as one string value; deserialize_str calls visit_str for a string value and a defaulted visit_* (refusing) otherwise; de::Error::custom',
-                 'Display::fmt of GenericPurl is the hoisted purl_fmt proved in group fmt (R2)'],
-        explanation='Proved (Verus, group serde): the three impl blocks, every member, bodies verbatim, against stubs of the serde traits: serialize hands the serializer exactly canon_spec(type, parts) (= what Display::fmt writes, group fmt) as one string value; '
+                 'Display::fmt of GenericPurl is the hoisted purl_fmt proved in group fmt (R2)',
+                 'a serde data format hands a string value it wrote back as the same string value (serde_json: B, bounded)'],
+        explanation='THEOREMS (group c01, theorem_c16_plain / _typed / _built_plain / _built_typed / _refused): a value the parser returned, serialised (contract of serialize: exactly canon_spec as one string value) and handed back to deserialize (contract de_post), is accepted with the same type, the same field texts and the same canonical string; a built value likewise up to the insignificant segments the builder does not remove itself (C09); a refused string is refused with the parser\'s error passed through Error::custom. They compose the contracts of the three impl blocks with theorem_c01 / theorem_c09; vacuity guard. The statement is proved in terms of the serde data model (one string value in, one string value out); that a data format such as JSON writes a string value and reads the same string value back is the format\'s contract (dependency, exercised by B with serde_json). Pieces: Proved (Verus, group serde): the three impl blocks, every member, bodies verbatim, against stubs of the serde traits: serialize hands the serializer exactly canon_spec(type, parts) (= what Display::fmt writes, group fmt) as one string value; '
                     'visit_str returns the parser\'s value for exactly the strings parse_post accepts (group parse) and the parser\'s error through Error::custom otherwise; deserialize asks for a string and refuses anything else (the visitor overrides no other visit_*). '
                     'What the serde data formats do with these calls is the dependency\'s business and is exercised by B. BOUNDED: JSON round trip and deserialise <=> parse over T_N (N <= 3 / 4) and non-string JSON values, GenericPurl<String> and Purl, built with --features serde.'),
     'C18': dict(level='proof', groups=['purl'], kani=[], bounded=['comb'] + A,
@@ -141,6 +142,7 @@ _EXTRA_TRUSTED = {
             'the iterator given to try_from_iter is finite and obeys vstd\'s prophetic iterator laws'],
     'C12': ['hex::FromHex / ToHex: decode(encode(b)) == b, encode yields lower-case hex (dependency; exercised by the checksum suite)',
             'HashMap wrappers of Checksum (with_capacity / insert / get / get_mut / remove / into_iter().collect() in ARBITRARY order)', _LOWER],
+    'C16': [_ENC, _CONV, _PHF, _LOWER, _DERIVE, _RETAIN],
     'C19': [_ENC, _DERIVE],
 }
 for _k, _p in PROPS.items():
